@@ -1445,6 +1445,30 @@ def c18(ctx):
                                 "`setec put` is not exercised (no terminal)"]
 
 
+def apalache_inductive(ctx, module, init, indinit, inv, action_invs=()):
+    """Unbounded safety with Apalache: Init => Inv (length 0), Inv /\\ Next => Inv' (length 1 from an arbitrary state satisfying Inv),
+    and action invariants from such a state."""
+    if shutil.which("apalache-mc") is None:
+        raise ToolTrouble("apalache-mc is not on PATH")
+    d = os.path.join(ctx.scratch, "apalache-" + module)
+    os.makedirs(d, exist_ok=True)
+    shutil.copy(os.path.join(VERIF, "spec", module + ".tla"), d)
+    runs = [("base", ["--init=" + init, "--inv=" + inv, "--length=0"]), ("step", ["--init=" + indinit, "--inv=" + inv, "--length=1"])]
+    runs += [("action:" + a, ["--init=" + indinit, "--inv=" + a, "--length=1"]) for a in action_invs]
+    done = []
+    for name, args in runs:
+        try:
+            p = subprocess.run(["apalache-mc", "check"] + args + ["--out-dir=" + os.path.join(d, "out"), module + ".tla"], cwd=d, capture_output=True, text=True, timeout=900)
+        except subprocess.TimeoutExpired:
+            raise ToolTrouble("apalache timed out on %s (%s)" % (module, name))
+        if "EXITCODE: OK" not in p.stdout:
+            raise ToolTrouble("Apalache does not confirm the inductive invariant of %s (%s): a problem in the specification, not a verdict on the code\n%s" % (
+                module, name, (p.stdout + p.stderr)[-2000:]))
+        done.append(name)
+    log("Apalache %s: %s" % (module, ", ".join(done)))
+    return {"module": module, "invariant": inv, "checked": done}
+
+
 # ----------------------------------------------------------------------------- C17
 @check("C17")
 def c17(ctx):
@@ -1452,7 +1476,8 @@ def c17(ctx):
     cfg = open(os.path.join(VERIF, "spec", "cfg", "BackupMC.cfg")).read()
     consts = {} if th else {"Steps": "{30000}", "Horizon": 330000}
     run = ctx.tlc("BackupMC", cfg, workers=NCPU, name="mc", timeout=3000, heap="12g", consts=consts)
-    ctx.tlc_must_pass(run, "Backup: Consistent, RateLimit, Settled, ChangeDriven, Quiescent, CoverExact over all timelines")
+    ctx.tlc_must_pass(run, "Backup: Consistent, RateLimit, Settled, ChangeDriven, Quiescent, CoverExact over all timelines; refinement of BackupInd")
+    apal = apalache_inductive(ctx, "BackupInd", "Init", "IndInit", "IndInv", ["RateLimitStep"])
     results, wd, code = ctx.godrive("backup", "^TestBackupTimelines$", env={"VERIF_TRACES": 3000 if th else 300}, name="timelines", timeout=3000)
     r = ctx.take(results, "backup-timelines")
     st = validate_branching(ctx, "BackupTrace", "BackupTrace.cfg", os.path.join(wd, "trace.ndjson"), 16 if th else 8, "backup",
@@ -1463,7 +1488,7 @@ def c17(ctx):
     cov = {"states": run.distinct, "transitions": run.generated, "traces_validated_against_impl": st["accepted"],
            "samples": (r.get("samples") or [])[:2], "timelines_recorded": st["histories"], "trace_events_validated": st["events"],
            "uploads_observed": r["counters"].get("uploads", 0), "database_writes": r["counters"].get("writes", 0),
-           "server_new_uploads": r2["counters"].get("uploads", 0),
+           "server_new_uploads": r2["counters"].get("uploads", 0), "apalache_inductive_invariant": apal,
            "explanation": "Backup.tla models the loop step by step (check the generation / read the live file / request reaches the bucket / outcome incl. the "
                           "five-minute limit / wait a minute / exit on cancellation) with database writes, a bucket that answers, fails or stalls, "
                           "cancellation and an explicit clock that cannot pass a due step. TLC checks Consistent, ChangeDriven, RateLimit, Quiescent, "
